@@ -27,3 +27,106 @@ def gen_search_consts():
 
 
 ALL = [gen_search_consts]
+
+
+# ---------------------------------------------------------------------------------------------------------------------
+# forwarding glue: how every find_* wrapper / shorthand hands its arguments on (read from the live source through `ast`)
+# ---------------------------------------------------------------------------------------------------------------------
+def _c10_forwarders():
+    import ast, inspect, textwrap
+    from bs4.element import PageElement, Tag
+
+    def enc(node, params, locals_):
+        if isinstance(node, ast.Name):
+            if node.id in locals_:
+                return "l:" + locals_[node.id]
+            return "p:" + node.id
+        if isinstance(node, ast.Constant):
+            return "c:" + repr(node.value)
+        if isinstance(node, ast.Attribute) and isinstance(node.value, ast.Name) and node.value.id == "self":
+            return "a:" + node.attr
+        if isinstance(node, ast.BinOp) and isinstance(node.left, ast.Name) and isinstance(node.right, ast.Constant):
+            return "p:" + node.left.id + "+" + repr(node.right.value)
+        return "?:" + ast.dump(node)[:40]
+
+    def callee_name(f):
+        parts = []
+        while isinstance(f, ast.Attribute):
+            parts.append(f.attr)
+            f = f.value
+        parts.append(f.id if isinstance(f, ast.Name) else "?")
+        return ".".join(reversed(parts))
+
+    def local_defs(fn, params):
+        """locals assigned from `self.<attr>` (possibly under `if not <param>:`): 'descendants|!recursive:children'"""
+        out = {}
+        for st in fn.body:
+            if isinstance(st, ast.Assign) and len(st.targets) == 1 and isinstance(st.targets[0], ast.Name):
+                out[st.targets[0].id] = enc(st.value, params, {})[2:] if enc(st.value, params, {}).startswith("a:") else "?"
+            if isinstance(st, ast.If) and isinstance(st.test, ast.UnaryOp) and isinstance(st.test.op, ast.Not) \
+                    and isinstance(st.test.operand, ast.Name):
+                for sub in st.body:
+                    if isinstance(sub, ast.Assign) and isinstance(sub.targets[0], ast.Name) and sub.targets[0].id in out:
+                        v = enc(sub.value, params, {})
+                        out[sub.targets[0].id] += f"|!{st.test.operand.id}:" + (v[2:] if v.startswith("a:") else "?")
+        return out
+
+    def params_of(f):
+        sig = inspect.signature(f)
+        names = [n for n, p in sig.parameters.items() if n != "self" and p.kind in (p.POSITIONAL_OR_KEYWORD, p.POSITIONAL_ONLY)]
+        star = any(p.kind == p.VAR_KEYWORD for p in sig.parameters.values())
+        return names, star
+
+    rows = []
+    wrappers = [(PageElement, n) for n in ("find_next", "find_all_next", "find_next_sibling", "find_next_siblings", "find_previous",
+                                           "find_all_previous", "find_previous_sibling", "find_previous_siblings", "find_parent",
+                                           "find_parents", "_find_one")] + \
+               [(Tag, n) for n in ("find", "find_all", "__call__", "select", "select_one")]
+    for cls, name in wrappers:
+        f = getattr(cls, name)
+        fn = ast.parse(textwrap.dedent(inspect.getsource(f))).body[0]
+        params, _ = params_of(f)
+        locs = local_defs(fn, params)
+        calls = [n for n in ast.walk(fn) if isinstance(n, ast.Call) and callee_name(n.func).split(".")[0] in ("self", "method")
+                 and callee_name(n.func) not in ("self.parents",)]
+        # the forwarding call: the one with the most arguments
+        call = max(calls, key=lambda c: len(c.args) + len(c.keywords))
+        cal = callee_name(call.func)
+        if cal == "method":
+            cparams, cstar = params_of(PageElement.find_all_next)
+        elif cal.startswith("self.css."):
+            from bs4.css import CSS
+            cparams, cstar = params_of(getattr(CSS, cal.split(".")[-1]))
+        else:
+            owner = Tag if hasattr(Tag, cal.split(".")[-1]) else PageElement
+            cparams, cstar = params_of(getattr(owner, cal.split(".")[-1]))
+        args = [enc(a, params, locs) for a in call.args]
+        kws = [(k.arg, enc(k.value, params, locs)) for k in call.keywords if k.arg is not None]
+        star = any(k.arg is None for k in call.keywords)
+        rows.append((name, params, cal, cparams, args, kws, star))
+    plural = ["find_all_next", "find_all_previous", "find_next_siblings", "find_previous_siblings"]
+    agree = len({tuple(params_of(getattr(PageElement, p))[0]) for p in plural}) == 1
+    return rows, agree
+
+
+def gen_search_glue():
+    rows, agree = _c10_forwarders()
+    q = lambda s: '"' + s.replace("\\", "\\\\").replace('"', '\\"') + '"'
+    ls = lambda xs: "[" + ", ".join(q(x) for x in xs) + "]"
+    t = HEADER + "namespace BS.Gen.Search\n"
+    t += "/-- one wrapper method of the find_* family as the live source has it: its own parameters, the method it forwards to, that\n"
+    t += "    method's parameters, the positional arguments and keyword arguments of the forwarding call (`p:` a parameter, `c:` a constant,\n"
+    t += "    `a:` an attribute of self, `l:` a local assigned from attributes of self), and whether `**kwargs` is forwarded -/\n"
+    t += "structure C10Forwarder where\n  name : String\n  params : List String\n  callee : String\n  calleeParams : List String\n"
+    t += "  args : List String\n  kwargs : List (String × String)\n  starKw : Bool\n  deriving Repr, DecidableEq\n\n"
+    items = []
+    for name, params, cal, cparams, args, kws, star in rows:
+        kwl = "[" + ", ".join(f"({q(k)}, {q(v)})" for k, v in kws) + "]"
+        items.append(f"  ⟨{q(name)}, {ls(params)}, {q(cal)}, {ls(cparams)}, {ls(args)}, {kwl}, {'true' if star else 'false'}⟩")
+    t += "def c10Forwarders : List C10Forwarder := [\n" + ",\n".join(items) + "]\n\n"
+    t += f"/-- the four plural methods `_find_one` is given have the same parameter list -/\ndef c10PluralSigsAgree : Bool := {'true' if agree else 'false'}\n"
+    t += "end BS.Gen.Search\n"
+    yield "SearchGlue.lean", t
+
+
+ALL = [gen_search_consts, gen_search_glue]
